@@ -273,7 +273,7 @@ impl World {
             .spec
             .faults
             .iter()
-            .find(|f| f.stage == stage && u32::from(f.nth) == n)
+            .find(|f| f.stage == stage && u32::from(f.nth) <= n && n <= u32::from(f.nth) + u32::from(f.repeat))
             .map(|f| f.errno);
         if let Some(e) = hit {
             self.events.push(Event::Fault {
